@@ -53,6 +53,7 @@ type FuncContract struct {
 	Track    []string
 	PureCallbacks map[string]bool
 	Callbacks map[string]*CallbackSpec
+	Pure     bool // side-effect free: its result is a function of its arguments (usable in contracts)
 	Trusted  bool // contract is assumed, body not verified (listed as an assumption)
 	TrustedWhy string
 	File     string
@@ -477,6 +478,8 @@ func parseContractFile(path, pkgPath string, preds map[string]*Pred) ([]*FuncCon
 			for _, n := range splitNames(rest) {
 				cur.PureCallbacks[n] = true
 			}
+		case "pure":
+			cur.Pure = true
 		case "trusted":
 			cur.Trusted = true
 			cur.TrustedWhy = rest
